@@ -18,6 +18,9 @@ Clause map
   candidate; `refToken_rules` spells the four rules out one by one; `refToken_none`.
 * agreement of the generated lexer's scan with the documented choice — `lexScan_flat`: for all
   token sets whose valid tokens share one precedence, all inputs: `lexScan = refToken`.
+* the exact relation for ARBITRARY precedences — `lexScan_vs_refToken` (the scan returns the documented
+  choice, or a strictly longer token of strictly lower precedence: the only possible deviation is
+  DIFFERENCE 1), `lexScan_none_iff`, `lexScan_eq_refToken_iff`, `lexScan_eq_refToken_of_longest`.
 * the implementation's cut-off (see DIFFERENCES) — `lexScan` and `lexScan_sound`: whatever the scan
   returns is a valid matching candidate and is the documented choice among all candidates of the
   same length (rules 4, 5 and the same-length part of rule 2).
@@ -142,6 +145,82 @@ theorem lexScan_flat (toks : List Token) (valid : Nat → Bool) (input : List Na
       rw [← hlen] at this
       exact this
     rw [hcs, keyOf_inj toks (Better.antisymm hcb hbc)]
+
+/-- `lexScan_vs_refToken`: for ANY precedences.  If the documented rules choose `b`, the scan returns
+some `c`, and either `c = b` or `c` is STRICTLY LONGER and of STRICTLY LOWER precedence than `b`
+(DIFFERENCE 1, "overtake") — no other kind of deviation exists.  Reason: the token of `b` has maximal
+precedence among all candidates and stays alive up to `b`'s length, so the all-or-nothing cut-off
+cannot fire before that length (`scan_reaches_top`); at that length the scan holds the documented
+choice; afterwards its answer can only be replaced by longer completions (`scan_mono`). -/
+theorem lexScan_vs_refToken (toks : List Token) (valid : Nat → Bool) (input : List Nat) (b : Cand)
+    (h : refToken toks valid input = some b) :
+    ∃ c, lexScan toks valid input = some c ∧
+      (c = b ∨ (b.2 < c.2 ∧ (tokAt toks c.1).prec < (tokAt toks b.1).prec)) := by
+  obtain ⟨hb, hbest, _⟩ := refToken_spec toks valid input b h
+  have htop : ∀ c, IsCand toks valid input c → (tokAt toks c.1).prec ≤ (tokAt toks b.1).prec := by
+    intro c hc
+    have := hbest c hc
+    simp only [Better, keyOf] at this
+    omega
+  obtain ⟨c, hc, hle⟩ := scan_reaches_top toks valid input b hb htop input (toks.map (·.re)) 0 none none
+    (by simp) (by simp [derivs]) (by intro P hP; cases hP) (by intro c hc; cases hc)
+    (by intro hle; have := hb.2.2.1; omega)
+  have hcs : lexScan toks valid input = some c := hc
+  refine ⟨c, hcs, ?_⟩
+  obtain ⟨hcc, hsame⟩ := lexScan_sound toks valid input c hcs
+  have hbc := hbest c hcc
+  by_cases hlen : c.2 = b.2
+  · left
+    have hcb : Better (keyOf toks c) (keyOf toks b) := by
+      have := hsame b.1 (by rw [hlen]; exact hb)
+      rw [hlen] at this
+      exact this
+    exact keyOf_inj toks (Better.antisymm hcb hbc)
+  · right
+    simp only [Better, keyOf] at hbc
+    constructor
+    · omega
+    · omega
+
+/-- the scan finds a token exactly when the documented rules do -/
+theorem lexScan_none_iff (toks : List Token) (valid : Nat → Bool) (input : List Nat) :
+    lexScan toks valid input = none ↔ refToken toks valid input = none := by
+  constructor
+  · intro hs
+    cases hr : refToken toks valid input with
+    | none => rfl
+    | some b =>
+      obtain ⟨c, hc, _⟩ := lexScan_vs_refToken toks valid input b hr
+      rw [hs] at hc; cases hc
+  · intro hr
+    have hno := (refToken_none toks valid input).1 hr
+    cases hs : lexScan toks valid input with
+    | none => rfl
+    | some c => exact absurd (lexScan_sound toks valid input c hs).1 (hno c)
+
+/-- `lexScan_eq_refToken_iff`: the generated lexer's scan and the documented rules agree on an input
+exactly when the scan's answer is not longer than the documented choice. -/
+theorem lexScan_eq_refToken_iff (toks : List Token) (valid : Nat → Bool) (input : List Nat) (b : Cand)
+    (h : refToken toks valid input = some b) :
+    lexScan toks valid input = some b ↔ ∀ c, lexScan toks valid input = some c → c.2 ≤ b.2 := by
+  constructor
+  · intro hs c hc; rw [hs] at hc; cases hc; exact Nat.le_refl _
+  · intro hall
+    obtain ⟨c, hc, hor⟩ := lexScan_vs_refToken toks valid input b h
+    rcases hor with rfl | ⟨hlt, _⟩
+    · exact hc
+    · have := hall c hc; omega
+
+/-- sufficient condition in terms of candidates only: when no candidate is longer than the documented
+choice (in particular when all candidates have one precedence, or when the highest-precedence
+candidate is also a longest one) the scan returns the documented choice. -/
+theorem lexScan_eq_refToken_of_longest (toks : List Token) (valid : Nat → Bool) (input : List Nat) (b : Cand)
+    (h : refToken toks valid input = some b) (hlong : ∀ c, IsCand toks valid input c → c.2 ≤ b.2) :
+    lexScan toks valid input = some b := by
+  obtain ⟨c, hc, hor⟩ := lexScan_vs_refToken toks valid input b h
+  rcases hor with rfl | ⟨hlt, _⟩
+  · exact hc
+  · have := hlong c (lexScan_sound toks valid input c hc).1; omega
 
 /-- `refTokenize_progress`: any fuel above the input length gives the same answer, i.e. the
 tokenizer never stops for lack of fuel (each step consumes at least one character). -/
